@@ -149,6 +149,7 @@ def safety_check(fn, lines, inputs, binary, label, bad, extra_bad=None, cwd=None
     res = drive(binary, lines, cwd=cwd)
     for k, (ln, inp, r) in enumerate(zip(lines, inputs, res)):
         case = cases[k // per] if cases is not None else dict(line=ln)
+        if r == "@skipped": continue            # the driver stops after 25 abnormal results per run
         if r.startswith("@"):
             fp = safety_fingerprint(fn, r)
             bad.append(dict(kind="safety", family=fn, fingerprint=fp, input=hx(inp), line=ln, build=label, case=case,
@@ -520,6 +521,7 @@ def _mut_compare(lines, binary, label, bad):
     for ln, r in zip(lines, res):
         f = ln.split("\t"); fn = f[0]; inp = bytes.fromhex(f[-1]) if f[-1] != "-" else b""
         if fn == "manifest": inp = bytes.fromhex(f[1]) if f[1] != "-" else b""
+        if r == "@skipped": continue
         if r.startswith("@"):
             fp = safety_fingerprint(fn, r)
             bad.append(dict(kind="safety", family="mutation", case=dict(line=ln), fingerprint=fp, input=hx(inp), line=ln, build=label,
